@@ -461,6 +461,20 @@ class SimGenerator:
             self._g.shuffle(x, **kw)
         self.calls.append(("shuffle", len(x)))
 
+    def random(self, size=None, **kw):
+        """Uniform variates on [0, 1): the planned outcomes are the two ends of the support, 0.0 and the largest double
+        below 1 (an implementation that builds another distribution from uniforms must cope with both)."""
+        self._maybe_raise()
+        f = self._planned("random")
+        if f is not None and f["kind"] in ("uniform_max", "uniform_zero"):
+            v = 1.0 - 2.0 ** -53 if f["kind"] == "uniform_max" else 0.0
+            out = v if size is None else np.full(_size_tuple(size), v)
+            self.fired.append(f["kind"])
+        else:
+            out = self._g.random(size, **kw)
+        self.calls.append(("random", _summ(size), _summ(out)))
+        return out
+
     def __getattr__(self, name):
         return getattr(self._g, name)
 
